@@ -11,7 +11,6 @@ import (
 	"encoding/json"
 	"fmt"
 	"os"
-	"os/exec"
 	"path/filepath"
 	"time"
 
@@ -91,7 +90,7 @@ func init() {
 			}
 			w.Flush()
 			f.Close()
-			cmd := exec.Command(drv, "auth", in, out)
+			cmd := driverCmd(c, drv, "auth", in, out)
 			if b, err := cmd.CombinedOutput(); err != nil {
 				c.Infra("auth driver: %v\n%s", err, core.Tail(string(b), 2000))
 			}
